@@ -35,8 +35,8 @@ Step(e) ==
                  THEN tkind' = [tkind EXCEPT ![e.topic] = KindOf(e.frame)] /\ UNCHANGED <<skip, run, nviol, holder, expectOk>>
                  ELSE Flag({"C11"}, "valid_registration_answered_" \o e.reply)
       [] e.ev = "hs_lock_acquired" ->
-            IF holder # 0 THEN Flag({"C17"}, "lock_hook_inconsistent")
-            ELSE holder' = e.task /\ UNCHANGED <<skip, run, nviol, tkind, expectOk>>
+            \* (a release whose hook event is missing is not a verdict: the acquisition proves it happened)
+            holder' = e.task /\ UNCHANGED <<skip, run, nviol, tkind, expectOk>>
       [] e.ev = "hs_lock_released" ->
             holder' = 0 /\ UNCHANGED <<skip, run, nviol, tkind, expectOk>>
       [] e.ev = "hs_send_begin" ->
@@ -50,6 +50,8 @@ Step(e) ==
             IF e.res = "ok" THEN Stutter ELSE Flag({"C17"}, "other_topic_blocked_by_stalled_topic")
       [] e.ev = "done" ->
             IF e.panics # 0 THEN Flag({"C11", "C08"}, "server_task_panicked") ELSE Stutter
+      [] e.ev = "slow_refused_peer_probe" ->
+            IF e.res = "ok" THEN Stutter ELSE Flag({"C11", "C17"}, "refused_peer_that_does_not_read_blocks_other_registrations")
       [] e.ev = "iso" ->
             IF e.res = "ok" THEN Stutter ELSE Flag({"C07", "C01"}, "two_different_topic_names_share_or_lose_traffic")
       [] e.ev = "harness_error" -> Flag({"C11"}, "server_unreachable")
